@@ -4,6 +4,7 @@ import (
 	"errors"
 	"fmt"
 	"io/fs"
+	"reflect"
 	"runtime"
 	"runtime/debug"
 	"sort"
@@ -14,6 +15,7 @@ import (
 	"time"
 
 	"github.com/open2b/scriggo"
+	"github.com/open2b/scriggo/native"
 
 	"verifharness/internal/proto"
 )
@@ -21,13 +23,41 @@ import (
 // BuildCase is one end-to-end input: files of a template tree (Entry is built with
 // BuildTemplate) or one program file (Kind 'p', built with Build).
 type BuildCase struct {
-	Kind  byte // 't' or 'p'; 'T' and 'P': the same with BuildOptions.AllowGoStmt
+	Kind byte // 't' or 'p'; 'T' and 'P': the same with BuildOptions.AllowGoStmt; 'u'/'q': template/program with the native
+	// package "nat" (Packages) and, for templates, its declarations as Globals; 'U'/'Q': natives and AllowGoStmt
 	Entry string
 	Files map[string][]byte
 }
 
 // Program reports whether the case is built with Build (otherwise: BuildTemplate).
-func (b BuildCase) Program() bool { return b.Kind == 'p' || b.Kind == 'P' }
+func (b BuildCase) Program() bool {
+	return b.Kind == 'p' || b.Kind == 'P' || b.Kind == 'q' || b.Kind == 'Q'
+}
+
+// GoStmt reports whether the case is built with AllowGoStmt, Natives whether with the native package "nat".
+func (b BuildCase) GoStmt() bool {
+	return b.Kind == 'P' || b.Kind == 'T' || b.Kind == 'Q' || b.Kind == 'U'
+}
+func (b BuildCase) Natives() bool {
+	return b.Kind == 'q' || b.Kind == 'Q' || b.Kind == 'u' || b.Kind == 'U'
+}
+
+// WithKind gives the kind letter for (program, natives, goStmt).
+func KindOf(program, natives, goStmt bool) byte {
+	k := byte('t')
+	switch {
+	case program && natives:
+		k = 'q'
+	case program:
+		k = 'p'
+	case natives:
+		k = 'u'
+	}
+	if goStmt {
+		k -= 'a' - 'A'
+	}
+	return k
+}
 
 func (b BuildCase) names() []string {
 	n := make([]string, 0, len(b.Files))
@@ -169,8 +199,14 @@ func BuildInChild(b BuildCase) (res BuildResult) {
 		}()
 		var err error
 		var opts *scriggo.BuildOptions
-		if b.Kind == 'T' || b.Kind == 'P' {
-			opts = &scriggo.BuildOptions{AllowGoStmt: true}
+		if b.GoStmt() || b.Natives() {
+			opts = &scriggo.BuildOptions{AllowGoStmt: b.GoStmt()}
+			if b.Natives() {
+				opts.Packages = native.Packages{"nat": natPackage}
+				if !b.Program() {
+					opts.Globals = natPackage.Declarations
+				}
+			}
 		}
 		if b.Program() {
 			var p *scriggo.Program
@@ -264,3 +300,39 @@ func panicSite(stack string) string {
 	}
 	return ""
 }
+
+// The native declarations of the kinds 'q', 'Q', 'u', 'U': an interface type with a value, a struct type with value
+// and pointer methods, values of function, channel, map, slice and pointer types, a variadic function, a constant.
+type NatI interface {
+	M()
+	N(int) int
+}
+type NatS struct{ A int }
+
+func (NatS) M()            {}
+func (NatS) N(i int) int   { return i }
+func (*NatS) PM()          {}
+func (NatS) V(a ...func()) {}
+
+var (
+	natIv   NatI = NatS{}
+	natNilI NatI
+	natSv   = NatS{}
+	natPv   = &NatS{}
+	natFv   = func() {}
+	natCh   = make(chan int, 1)
+	natMap  = map[string]int{}
+	natErr  error
+	natAny  interface{} = 1
+)
+
+var natPackage = native.Package{Name: "nat", Declarations: native.Declarations{
+	"I": reflect.TypeOf((*NatI)(nil)).Elem(), "S": reflect.TypeOf(NatS{}),
+	"Iv": &natIv, "NilI": &natNilI, "Sv": &natSv, "Pv": &natPv, "Fv": &natFv, "Ch": &natCh, "Map": &natMap, "Err": &natErr, "Any": &natAny,
+	"F":    func() {},
+	"FI":   func() NatI { return NatS{} },
+	"FV":   func(a ...interface{}) {},
+	"FVF":  func(a ...func()) {},
+	"FInt": func(i int) int { return i },
+	"C":    native.UntypedNumericConst("42"),
+}}
